@@ -1,7 +1,7 @@
 (* PropC18.v — C18: queues are isolated from one another, live and across clean restarts (histories from a fresh directory, hist_ok); the crash part rests on C02.
    Statements only; each theorem is closed by `exact <lemma>`; proofs live in the imported files. *)
 From Coq Require Import Lia NArith List.
-From MRL Require Import Bytes Params Names Frame Record Mem Spec Rolling Log Hist SpecRefine QueueIso RecordProofs RestartInv RestartFinal RestartCorollaries.
+From MRL Require Import Bytes Params Names Frame Record Mem Spec Rolling Log Hist SpecRefine QueueIso RecordProofs RestartInv RestartFinal RestartCorollaries CrashCorollaries PersistSurvive CrashAtomic DamageAtomic.
 
 (* specification level: removing the calls addressed to other queues changes neither q's content nor the outcomes of q's calls *)
 Theorem C18_spec_projection :
@@ -95,4 +95,76 @@ Theorem C18_others_and_restarts_invisible :
     log_last_position st' q = log_last_position st q /\ log_last_record st' q = log_last_record st q.
 Proof. exact others_and_restarts_invisible. Qed.
 Print Assumptions C18_others_and_restarts_invisible.
+
+(* crash half: after recovery from any crash image, the content of q (range, last_position, last_record, next position) is that of the specification run over the calls addressed to q alone, up to some prefix: other queues' calls, including those whose truncations/deletions deleted files before the crash, do not influence what q recovers to *)
+Theorem C18_crash_projection :
+    forall P : params,
+    7 < BS P ->
+    BS P <= 65542 ->
+    1 <= NB P ->
+    (forall (t : byte) (p : bytes), crcf P t p < 2 ^ 32) ->
+    L_GC P = false ->
+    L_IO P = false ->
+    L_SHORT P = false ->
+    TornProofs.no_zero_collision P ->
+    forall (st0 : state) (G0 : ghost),
+    Inv P st0 G0 ->
+    w_pending (s_wr st0) = [] ->
+    forall h : list (op * bool),
+    GhostLog.hist_wf P st0 h ->
+    RestartWrite.stream_bound P G0 (map snd (GhostLog.run_log P st0 h)) ->
+    CB P st0 h ->
+    forall evs : list event,
+    c_ev (w_ctx (s_wr (fst (run P st0 h)))) = rev evs ++ c_ev (w_ctx (s_wr st0)) ->
+    forall (cut k : N) (pol : policy) (hint : list bytes),
+    exists (m : nat) (st_r : state),
+    (m <= length h)%nat /\
+    open P (fold_left Driver.apply_event (Driver.crash_events evs cut k) (c_fs (w_ctx (s_wr st0)))) None
+    pol hint = OpenOk st_r /\
+    (forall (q : bytes) (m0 : smap),
+    s_get m0 q = s_get (abs_qs (s_qs st0)) q ->
+    let mq := fst (s_run m0 (filter (addressed q) (firstn m (sops h)))) in
+    s_get (abs_qs (s_qs st_r)) q = s_get mq q /\
+    (forall lo hi : bound, log_range st_r q lo hi = s_range mq q lo hi) /\
+    log_last_position st_r q = s_last_position mq q /\
+    log_last_record st_r q = s_last_record mq q /\ log_next st_r q = next_or0 (s_get mq q)).
+Proof. exact crash_projection. Qed.
+Print Assumptions C18_crash_projection.
+
+(* the same for Always policies from a fresh directory *)
+Theorem C18_crash_projection_always :
+    forall P : params,
+    7 < BS P ->
+    BS P <= 65542 ->
+    1 <= NB P ->
+    (forall (t : byte) (p : bytes), crcf P t p < 2 ^ 32) ->
+    L_GC P = false ->
+    L_IO P = false ->
+    L_SHORT P = false ->
+    TornProofs.no_zero_collision P ->
+    forall (a : bool) (st0 : state) (h : list hop) (st : state) (outs : list outcome)
+    (o : op) (tick : bool) (st' : state) (out : outcome),
+    open P [] None (PAlways a) [] = OpenOk st0 ->
+    hrun P st0 h = Some (st, outs) ->
+    hist_ok P st0 h ->
+    always_hist a h ->
+    GhostLog.op_wf_strict (s_qs st) o ->
+    crash_phys_bound P (s_wr st) (map snd (GhostLog.step_log P st o)) (abs_qs (s_qs st)) ->
+    crash_phys_bound P (s_wr st) (map snd (GhostLog.step_log P st o)) (abs_qs (s_qs st')) ->
+    step P st o tick = (st', out) ->
+    exists evs : list event,
+    c_ev (w_ctx (s_wr st')) = rev evs ++ c_ev (w_ctx (s_wr st)) /\
+    (forall (cut k : N) (pol : policy) (hint : list bytes),
+    exists (st_r : state) (calls_r : list sop),
+    open P (fold_left Driver.apply_event (Driver.crash_events evs cut k) (c_fs (w_ctx (s_wr st))))
+    None pol hint = OpenOk st_r /\
+    (calls_r = map sop_of (hcalls h) \/ calls_r = map sop_of (hcalls h) ++ [sop_of o]) /\
+    (forall q : bytes,
+    let mq := fst (s_run [] (filter (addressed q) calls_r)) in
+    s_get (abs_qs (s_qs st_r)) q = s_get mq q /\
+    (forall lo hi : bound, log_range st_r q lo hi = s_range mq q lo hi) /\
+    log_last_position st_r q = s_last_position mq q /\
+    log_last_record st_r q = s_last_record mq q /\ log_next st_r q = next_or0 (s_get mq q))).
+Proof. exact crash_projection_always. Qed.
+Print Assumptions C18_crash_projection_always.
 
